@@ -298,6 +298,25 @@ def load_known():
         return json.load(f)["findings"]
 
 
+def to_tagged(j):
+    """plain JSON (python) -> tagged interchange value; integers and simple decimals only"""
+    if j is None:
+        return {"t": "null"}
+    if isinstance(j, bool):
+        return {"t": "bool", "b": j}
+    if isinstance(j, int):
+        return {"t": "num", "p": j, "q": 1}
+    if isinstance(j, float):
+        from fractions import Fraction
+        fr = Fraction(j).limit_denominator(1000)
+        return {"t": "num", "p": fr.numerator, "q": fr.denominator}
+    if isinstance(j, str):
+        return {"t": "str", "s": cps(j)}
+    if isinstance(j, list):
+        return {"t": "arr", "a": [to_tagged(x) for x in j]}
+    return {"t": "obj", "o": [{"k": cps(k), "v": to_tagged(v)} for k, v in sorted(j.items(), key=lambda kv: [ord(c) for c in kv[0]])]}
+
+
 def witness_cases(prop, work, name="witness.cases"):
     """One text case per finding (known or fixed) recorded for this property: known ones must show up as
     KNOWN-FINDING in every run, fixed ones are re-checked in every run and must now be accepted."""
@@ -306,7 +325,10 @@ def witness_cases(prop, work, name="witness.cases"):
     with open(path, "w") as f:
         for k in load_known():
             if prop in k["properties"] and "expr" in k.get("witness", {}):
-                f.write(json.dumps({"e": "lang", "text": cps(k["witness"]["expr"]), "witness_of": k["id"]}) + "\n")
+                c = {"e": "lang", "text": cps(k["witness"]["expr"]), "witness_of": k["id"]}
+                if "doc" in k["witness"]:
+                    c["doc"] = to_tagged(k["witness"]["doc"])
+                f.write(json.dumps(c) + "\n")
                 n += 1
     return path, n
 
@@ -437,6 +459,9 @@ def finish(prop, ev, rejects, work, triage=True):
         else:
             violations.append(r)
     os.makedirs(os.path.join(VERIF, "replays"), exist_ok=True)
+    for old in os.listdir(os.path.join(VERIF, "replays")):
+        if old.startswith("%s-%s-" % (prop, ev.tier)):
+            os.remove(os.path.join(VERIF, "replays", old))
     for dev, rs in sorted(hits.items()):
         k = by_dev[dev]
         print("KNOWN-FINDING: property=%s %s [%s] (%d record(s) this run; e.g. %s)"
